@@ -30,6 +30,10 @@ PROPS["C03"] = dict(
 
 PROPS["C01"] = dict(
     gen=cases.gen_C01,
+    # "with dimension checking enabled": every way of enabling it — debug profile, release profile + dim_check_release, no_std
+    configs=[(None, "chk"), ("release:std,chk,devices", "chk"), ("libm,chk,devices", "chk nostd")],
+    configs_thorough=[(None, "chk"), ("release:std,chk,devices", "chk"), ("libm,chk,devices", "chk nostd"), ("std,chkdbg,devices", "chk"),
+                      ("micromath,chk,devices", "chk nostd")],
     mask={"time", "cat", "unit", "float"},
     rule="49x49 ordered unit pairs x {add,sub,mul,div + assign forms, partial_cmp, ==} on Quantity and on bare Unit "
          "(exhaustive), unary ops on all 49 units, every mixed Quantity/Time/DimensionlessInteger impl on all 49 units, "
@@ -55,6 +59,8 @@ PROPS["C02"] = dict(
 
 PROPS["C14"] = dict(
     gen=cases.gen_C14,
+    # command kinds are checked by an explicit assert, not by units: mismatched kinds must panic with checking compiled out too
+    configs=[(None, "chk"), ("std,devices", "nochk")],
     mask={"time", "cat", "unit", "float"},
     rule="random finite state triples (25% exact zeros, some -0) x dt in {0, ±1 ns, ±2 s, random up to ±1e5 s}; all 49 grid "
          "units as argument of each setter and in each position of State::new; all 3x3 command kind pairs for add/sub/eq; "
@@ -67,6 +73,9 @@ PROPS["C14"] = dict(
 
 PROPS["C18"] = dict(
     gen=cases.gen_C18,
+    # conversions must work the same with checking compiled out (`eq_assume_true` / `eq_assume_false` pick the answer there)
+    configs=[(None, "chk"), ("std,devices", "nochk")],
+    configs_thorough=[(None, "chk"), ("std,devices", "nochk"), ("libm,chk,devices", "chk nostd"), ("release:std,chk,devices", "chk")],
     mask={"time", "cat", "unit", "float"},
     rule="i64 operands stratified over magnitudes 0..2^62, signs, extremes and neighbourhoods of 2^24*2^k (f32 rounding ties); "
          "every Time/DimensionlessInteger operator and assign form incl. overflow and /0 panics; conversions to/from Quantity and i64; "
@@ -147,8 +156,9 @@ PROPS["C04"] = dict(
 PROPS["C15"] = dict(
     gen=cases.gen_C15,
     mask={"cat", "time", "float"},
-    rule="random operation sequences up to 40 ops over {set(v) with scripted success/failure, follow, stop_following, change of the "
-         "followed getter's output (present/absent/error), update, get_last_request} on a recording settable; the same plus clock changes "
+    rule="random operation sequences up to 40 ops over {set(v) with scripted success/failure, follow of either of TWO scripted getters (also "
+         "switching from one to the other without stop_following), stop_following, changes of either getter's output (present/absent/error), "
+         "update, get_last_request} on a recording settable; the same plus clock changes "
          "on a ConstantGetter; GetterFromHistory over a scripted history (value = query time, absent below a threshold) for all four "
          "constructors with clock advances, set_delta, set_time, erroring clocks; TimeGetterFromGetter over all input categories",
     trusted_base=COMMON_TB,
@@ -303,7 +313,7 @@ PROPS["C17"] = dict(
     mask={"cat", "time", "float"},
     rule="six Reference variants x random sequences of up to 12 operations over {clone, to_dyn!, borrow+read, borrow_mut+write, "
          "increment, drop handle, liveness of the target}; to_dyn! on every variant; 2..8 real threads x 1e3 (1e5) locked increments on the "
-         "Arc/static Mutex/RwLock variants, final counter = n*k; a downstream crate declaring no features of its own (thorough: also "
+         "Arc/static Mutex/RwLock variants, final counter = n*k; a downstream crate declaring no features of its own, and one whose library half is #![no_std] while rrtk has std (thorough: also "
          "'alloc', 'alloc+std') converting Rc / static RwLock / static pointer References with to_dyn! and checking aliasing",
     trusted_base=COMMON_TB + ["Gen/ToDyn.lean is regenerated from src/reference.rs (macro definitions, their item-level cfgs, arms and "
                               "in-body cfgs) on every run and the theorems to_dyn_* are re-checked against it",
@@ -322,9 +332,13 @@ PROPS["C19"] = dict(
     model_informational=True,
     float_value_eq=True,
     mask={"cat", "time", "unit", "float"},
-    configs=[(None, "chk"), ("std,devices", "nochk"), ("libm,devices", "nochk")],
-    configs_thorough=[(None, "chk"), ("std,devices", "nochk"), ("libm,chk,devices", "chk"), ("libm,devices", "nochk"),
-                      ("micromath,chk,devices", "chk"), ("micromath,devices", "nochk")],
+    # every way the documented rule `dim_check_release or (debug_assertions and dim_check_debug)` can come out, on std; plus no_std
+    configs=[(None, "chk"), ("std,devices", "nochk"), ("libm,devices", "nochk nostd"), ("libm,chk,devices", "chk nostd"),
+             ("release:std,chk,devices", "chk"), ("release:std,chkdbg,devices", "nochk")],
+    configs_thorough=[(None, "chk"), ("std,devices", "nochk"), ("libm,chk,devices", "chk nostd"), ("libm,devices", "nochk nostd"),
+                      ("micromath,chk,devices", "chk nostd"), ("micromath,devices", "nochk nostd"), ("std,chkdbg,devices", "chk"),
+                      ("release:std,chk,devices", "chk"), ("release:std,chkdbg,devices", "nochk"), ("release:std,devices", "nochk"),
+                      ("release:libm,chk,devices", "chk nostd")],
     rule="one seeded workload over the whole public API (sub-samples of every other property's generator: quantities incl. "
          "ill-dimensioned programs, time/integer ops, states, commands, data, every stateless and stateful stream, motion profiles, "
          "settables, terminals and every device and wrapper) run by the harness rebuilt from /repo under each configuration; the "
@@ -337,7 +351,9 @@ PROPS["C19"] = dict(
          "internal integer overflow for base -0.0 in debug builds — third-party behaviour), as the property itself exempts the power "
          "function there; the exact corner "
          "cases of powf (0^0, 0^-1, 1^y, x^0) and the hand-written PartialEq / manual abs on special and near-equal values are included. quick: "
-         "std+chk, std unchecked, alloc+libm unchecked; thorough: all six of {std, alloc+libm, alloc+micromath} x {checked, unchecked}",
+         "std+chk, std unchecked, alloc+libm unchecked and checked, and the RELEASE profile (debug_assertions off) with dim_check_release "
+         "(checked) and with only dim_check_debug (unchecked); thorough: all six of {std, alloc+libm, alloc+micromath} x {checked, unchecked}, "
+         "debug+dim_check_debug, and four release-profile configurations",
     trusted_base=COMMON_TB + ["rustc's cfg resolution selects the bodies the model assumes for each configuration: exactly what the "
                               "multi-configuration correspondence tests (not proved)"],
     assumptions=COMMON_AS + ["powf implementations (std/libm/micromath) are outside the claim, as in the property"],
